@@ -10,7 +10,7 @@ compare with the scoped PDU produced by the independent encoder of harness/py/be
 import os
 import sys
 
-from lib import codec, gen, vf
+from lib import codec, gen, privhist, vf
 
 sys.path.insert(0, os.path.join(vf.VERIF, "harness", "py"))
 import ber  # noqa: E402
@@ -33,130 +33,8 @@ def main(argv):
         return c.finish("n/a")
     rng = c.rng
     dis = 0
-    hist, metas = [], []
-    for _ in range(1500 if thorough else 300):
-        alg = rng.choice([1, 2])
-        key = gen.rbytes(rng, 16, False)
-        ops, meta = [], []
-        for _k in range(rng.randint(1, 7)):
-            t = rng.randint(0, 3)
-            if t <= 1:
-                ctx = gen.rbytes(rng, rng.choice([0, 5, 12, 32]), False)
-                kind = rng.choice(["get", "getnext", "bulk"])
-                # (one OID at most: the op fields of the harness command are comma separated) - size varies with the OID length
-                oids = [ber.oid_content(gen.rarcs(rng, 6) + [rng.randrange(2 ** 32) for _y in range(rng.choice([0, 0, 3, 30, 200, 800]))])
-                        for _x in range(rng.choice([0, 1, 1, 1]))]
-                rid = rng.randrange(2 ** 31)
-                boots, tm = rng.choice([0, 1, 2 ** 31 - 1, rng.randrange(2 ** 32)]), rng.choice([0, 255, rng.randrange(2 ** 32)])
-                oh = ",".join(o.hex() for o in oids) or "-"
-                if kind == "bulk":
-                    spec = "bulk:%d:0:%d:%s" % (rid, 10, oh)
-                    plain = scoped_of(ctx, kind, rid, oids, 0, 10)
-                else:
-                    spec = "%s:%d:%s" % (kind, rid, oh)
-                    plain = scoped_of(ctx, kind, rid, oids)
-                ops.append("e,%s,%s,%d,%d" % (gen.hx(ctx), spec, boots, tm))
-                meta.append(("e", plain, boots, tm))
-            elif t == 2:    # a decrypt of garbage in between (failed receive)
-                ops.append("d,%s,%d,%d,%s" % (gen.hx(gen.rbytes(rng, rng.choice([8, 8, 7, 0]), False)), rng.randrange(2 ** 31), rng.randrange(2 ** 31),
-                                              gen.hx(gen.rbytes(rng, rng.choice([8, 16, 24, 40, 13]), False))))
-                meta.append(("dg",))
-            else:           # placeholder: decrypt of a genuine ciphertext is appended after the first pass
-                ops.append(None)
-                meta.append(("dx",))
-        hist.append((alg, key, ops))
-        metas.append(meta)
-    # first pass on the implementation to learn the random salt and to obtain ciphertexts for the genuine-decrypt slots
-    lines1 = ["priv %d %s %s" % (alg, key.hex(), "|".join(o for o in ops if o is not None)) for alg, key, ops in hist]
-    r1 = vf.run_lines(cd.rel, lines1)
-    lines_m, lines_i, exps = [], [], []
-    for (alg, key, ops), meta, o1 in zip(hist, metas, r1):
-        outs = o1[3:].split(" | ") if o1.startswith("OK ") else []
-        enc = [x for x in outs if x.startswith("E ")]
-        if not enc:
-            continue
-        pp0 = enc[0].split(" ")[2]
-        seed = int(pp0[8:], 16) if alg == 1 else int(pp0, 16)
-        # agent-side encryption of a response under the same key, to be decrypted by the library in the dx slots
-        full = []
-        for o, mt in zip(ops, meta):
-            if o is not None:
-                full.append(o)
-            else:
-                resp = ber.scoped_pdu(b"\x80\x00\x01", b"", ber.pdu(0xA2, 99, 0, 0, [ber.varbind(ber.enc_oid([1, 3, 6, 1]), ber.enc_value("int", 5))]))
-                salt = gen.rbytes(rng, 8, False)
-                boots, tm = rng.randrange(2 ** 31), rng.randrange(2 ** 31)
-                if alg == 1:
-                    iv = bytes(a ^ b for a, b in zip(salt, key[8:16]))
-                    pt = resp + bytes((-len(resp)) % 8)
-                    q = "cipher des enc %s %s %s" % (key[:8].hex(), iv.hex(), pt.hex())
-                else:
-                    iv = boots.to_bytes(4, "big") + tm.to_bytes(4, "big") + salt
-                    q = "cipher aes enc %s %s %s" % (key.hex(), iv.hex(), resp.hex())
-                ct = vf.run_lines(v3exe, [q], shards=1)[0][3:]
-                full.append("d,%s,%d,%d,%s" % (salt.hex(), boots, tm, ct))
-        lines_i.append("priv %d %s %s" % (alg, key.hex(), "|".join(full)))
-        lines_m.append("priv %d %s %d %s" % (alg, key.hex(), seed, "|".join(full)))
-        exps.append((alg, key, meta, seed))
-    mo = vf.run_lines(v3exe, lines_m, shards=16)
-    ro = vf.run_lines(cd.rel, lines_i)
-    do = vf.run_lines(cd.dbg, lines_i)
-    # the implementation's salt is random per run: compare the model with each run after substituting its own first salt
-    checks = []
-    for (alg, key, meta, seed), lm, li, ml, rl, dl in zip(exps, lines_m, lines_i, mo, ro, do):
-        c.count(li[:300], nontrivial=li.count("|") >= 1)
-        for prof, o in (("release", rl), ("debug", dl)):
-            if not o.startswith("OK "):
-                c.violation("privacy history fails (%s build): %s" % (prof, o[:80]), {"cmd": li, "observed": o}, key="priv-history-fails")
-                continue
-            outs = o[3:].split(" | ")
-            enc = [x for x in outs if x.startswith("E ")]
-            pp0 = enc[0].split(" ")[2]
-            seed_o = int(pp0[8:], 16) if alg == 1 else int(pp0, 16)
-            if seed_o == seed:
-                if o != ml:
-                    dis += 1
-                    if dis <= 3:
-                        c.log("model/impl(%s) disagree on privacy history `%s`:\n   model %s\n   impl  %s" % (prof, li[:100], ml[:200], o[:200]))
-                    if not any(b.startswith("correspondence") for b in c.broken):
-                        c.broken = list(c.broken) + ["correspondence `%s`: model `%s` impl(%s) `%s`" % (lm[:200], ml[:120], prof, o[:120])]
-            # oracle: each ciphertext decrypts (reference cipher, RFC IV from the transmitted salt) to scoped PDU + < 1 block of zeros
-            ei = 0
-            block = 8 if alg == 1 else 16
-            for mt, x in zip(meta, outs):
-                if mt[0] == "e":
-                    if not x.startswith("E "):
-                        # too large for the private buffer is legitimate
-                        if len(mt[1]) + block > 4080 and x == "ERR OutOfBuffer":
-                            continue
-                        c.violation("encrypt failed: %s" % x, {"cmd": li, "profile": prof}, key="encrypt-failed")
-                        continue
-                    _, ct, pp = x.split(" ")
-                    pp = bytes.fromhex(pp)
-                    if len(pp) != 8:
-                        c.violation("msgPrivacyParameters is %d octets" % len(pp), {"cmd": li, "profile": prof}, key="salt-length")
-                    if alg == 1:
-                        iv = bytes(a ^ b for a, b in zip(pp, key[8:16]))
-                        q = "cipher des dec %s %s %s" % (key[:8].hex(), iv.hex(), ct)
-                    else:
-                        iv = (mt[2] % 2 ** 32).to_bytes(4, "big") + (mt[3] % 2 ** 32).to_bytes(4, "big") + pp
-                        q = "cipher aes dec %s %s %s" % (key.hex(), iv.hex(), ct)
-                    checks.append((q, mt[1], block, li, prof, ei))
-                    ei += 1
-                elif mt[0] == "dx":
-                    if not x.startswith("D plain(800001,resp(99,0,0;2b0601=int:5))"):
-                        c.violation("a response encrypted per RFC 3414/3826 by the agent is not decrypted to its content: %s" % x[:80],
-                                    {"cmd": li, "profile": prof, "observed": x}, key="decrypt-genuine")
-    outs = vf.run_lines(v3exe, [q for q, *_ in checks], shards=16)
-    for (q, plain, block, li, prof, ei), o in zip(checks, outs):
-        pt = bytes.fromhex(o[3:]) if o.startswith("OK ") and o[3:] != "-" else b""
-        pad = pt[len(plain):]
-        if pt[:len(plain)] != plain or len(pad) >= block or any(pad) or len(pt) < len(plain):
-            how = "longer than the scoped PDU by %d octets" % len(pad) if pt[:len(plain)] == plain else "different from the scoped PDU"
-            c.violation("message %d of a privacy history decrypts to something %s (%s build)" % (ei, how, prof),
-                        {"cmd": li, "profile": prof, "decrypted": pt.hex()[:400], "scoped_pdu": plain.hex()[:400]},
-                        key="ciphertext:" + ("extra-octets" if pt[:len(plain)] == plain else "wrong-plaintext"))
-    c.sample({"history": lines_i[0][:200], "out": ro[0][:200]})
+    n_hist, d, n_ct = privhist.run(c, cd, v3exe, rng, 1500 if thorough else 300)
+    dis += d
 
     # ---- API level: real sessions, every pair of (auth key type, privacy key type), engine id given and discovered:
     # each request must decrypt under the key localized by RFC 3414 A.2 (hashlib) and the encrypted reply must be read
@@ -209,8 +87,8 @@ def main(argv):
         rule="%d privacy histories (DES and AES-128): 1..7 interleaved encrypts of Get/GetNext/GetBulk scoped PDUs (OIDs of 2..800 arcs, context engine ids "
              "0..32 octets, boots/time up to 2^32-1), decrypts of garbage (wrong sizes, short salts) and decrypts of genuine agent-encrypted "
              "responses, on one key object each; %d ciphertexts decrypted by the reference cipher and compared with the independently encoded "
-             "scoped PDU; non-trivial = history of >= 2 operations" % (len(lines_i), len(checks)),
-        extra={"disagreements": dis, "ciphertexts": len(checks), "api_sessions": n_api})
+             "scoped PDU; non-trivial = history of >= 2 operations" % (n_hist, n_ct),
+        extra={"disagreements": dis, "ciphertexts": n_ct, "api_sessions": n_api})
 
 
 def api_main(g, job):
